@@ -436,6 +436,135 @@ fn derived(c: &DerivedCase, info: &mut CaseInfo) -> Result<(), Fail> {
     Ok(())
 }
 
+
+// ---------------------------------------------------------------------------------------------
+// boundary digests and float entry points
+
+#[derive(Debug, Clone, Serialize, Deserialize)]
+pub enum BoundaryItem {
+    /// the u128 item whose MurmurHash3 digest under the default seed is exactly (h1, h2)
+    Digest { h1: u64, h2: u64 },
+    /// update_f64 with these bits
+    F64(u64),
+    /// update_f32 with these bits
+    F32(u32),
+}
+
+#[derive(Debug, Clone, Serialize, Deserialize)]
+pub struct BoundaryCase {
+    pub item: BoundaryItem,
+    pub lg_k: u8,
+}
+
+fn boundary_word() -> impl Strategy<Value = u64> {
+    prop_oneof![
+        3 => prop_oneof![Just(0u64), Just(1), Just(2), Just(3), Just(u64::MAX), Just(u64::MAX - 1), Just(1 << 63), Just((1 << 63) - 1), Just((1 << 63) + 1)],
+        // exactly j leading zeros, random below
+        4 => (0u32..=63, any::<u64>()).prop_map(|(j, r)| ((1u64 << 63) | (r >> 1)) >> j),
+        // low-bit patterns (slot / row / address bits)
+        2 => (any::<u64>(), 0u32..=32).prop_map(|(r, b)| r & !((1u64 << b) - 1)),
+        2 => any::<u64>(),
+    ]
+}
+
+fn boundary_case() -> impl Strategy<Value = BoundaryCase> {
+    let f64bits = prop_oneof![
+        3 => prop_oneof![Just(0u64), Just(1u64 << 63), Just(0x7ff8000000000000), Just(0xfff8000000000000), Just(0x7ff0000000000001), Just(0x7ff0000000000000), Just(0xfff0000000000000), Just(1), Just(0x8000000000000001), Just(0x3ff0000000000000)],
+        1 => (any::<u64>()).prop_map(|m| 0x7ff0000000000000 | (m >> 12) | 1),
+        2 => any::<u64>(),
+    ];
+    let f32bits = prop_oneof![
+        3 => prop_oneof![Just(0u32), Just(1u32 << 31), Just(0x7fc00000), Just(0xffc00000), Just(0x7f800001), Just(0x7f800000), Just(0xff800000), Just(1), Just(0x3f800000)],
+        2 => any::<u32>(),
+    ];
+    let item = prop_oneof![
+        6 => (boundary_word(), boundary_word()).prop_map(|(h1, h2)| BoundaryItem::Digest { h1, h2 }),
+        2 => f64bits.prop_map(BoundaryItem::F64),
+        1 => f32bits.prop_map(BoundaryItem::F32),
+    ];
+    (item, 4u8..=14).prop_map(|(item, lg_k)| BoundaryCase { item, lg_k })
+}
+
+/// Java's canonical form of a double (`Double.doubleToLongBits(d == 0.0 ? 0.0 : d)`): one NaN, one zero.
+fn canonical_bits(v: f64) -> u64 {
+    if v.is_nan() {
+        0x7ff8000000000000
+    } else if v == 0.0 {
+        0
+    } else {
+        v.to_bits()
+    }
+}
+
+fn boundary(c: &BoundaryCase, info: &mut CaseInfo) -> Result<(), Fail> {
+    info.nontrivial = true;
+    // the byte stream the reference derivations start from, and how the item enters each sketch
+    enum Feed {
+        U128(u128),
+        F64(f64),
+        F32(f32),
+    }
+    let (bytes, feed, what): (Vec<u8>, Feed, String) = match &c.item {
+        BoundaryItem::Digest { h1, h2 } => {
+            let it = refhash::u128_item_for(*h1, *h2, refhash::DEFAULT_SEED);
+            let b = Recorder::bytes_of(&it);
+            ensure!(refhash::murmur3_x64_128(&b, refhash::DEFAULT_SEED) == (*h1, *h2), "harness.preimage", "preimage of ({h1:#x}, {h2:#x}) does not hash back");
+            info.label(format!("digest:h2_lz={}", h2.leading_zeros().min(64)));
+            (b, Feed::U128(it), format!("u128 item with digest ({h1:#x}, {h2:#x})"))
+        }
+        BoundaryItem::F64(bits) => {
+            let v = f64::from_bits(*bits);
+            info.label(if v.is_nan() { "f64:nan" } else if v == 0.0 { "f64:zero" } else { "f64:other" });
+            (canonical_bits(v).to_le_bytes().to_vec(), Feed::F64(v), format!("update_f64({v:?}) [bits {bits:#x}]"))
+        }
+        BoundaryItem::F32(bits) => {
+            let v = f32::from_bits(*bits);
+            info.label(if v.is_nan() { "f32:nan" } else if v == 0.0 { "f32:zero" } else { "f32:other" });
+            (canonical_bits(v as f64).to_le_bytes().to_vec(), Feed::F32(v), format!("update_f32({v:?}) [bits {bits:#x}]"))
+        }
+    };
+    // theta
+    let mut t = ThetaSketch::builder().lg_k(c.lg_k.max(5)).build();
+    match &feed {
+        Feed::U128(x) => t.update(*x),
+        Feed::F64(v) => t.update_f64(*v),
+        Feed::F32(v) => t.update_f32(*v),
+    }
+    let want = refhash::theta_hash(&bytes, refhash::DEFAULT_SEED);
+    let got: Vec<u64> = t.iter().collect();
+    if want == 0 || want >= i64::MAX as u64 {
+        // the KMV screen keeps hashes in (0, theta), theta <= 2^63 - 1
+        ensure!(got.is_empty(), "C16.theta.hash", "{what}: hash {want:#x} is outside (0, theta) and must be ignored, got {got:x?}");
+    } else {
+        ensure!(got == vec![want], "C16.theta.hash", "{what}: theta retained {got:x?}, reference {want:x}");
+    }
+    // CPC
+    let mut cp = CpcSketch::new(c.lg_k);
+    match &feed {
+        Feed::U128(x) => cp.update(*x),
+        Feed::F64(v) => cp.update_f64(*v),
+        Feed::F32(v) => cp.update_f32(*v),
+    }
+    let rc = refhash::cpc_row_col(&bytes, refhash::DEFAULT_SEED, c.lg_k);
+    let mut want_m = vec![0u64; 1 << c.lg_k];
+    want_m[(rc >> 6) as usize] |= 1u64 << (rc & 63);
+    ensure!(cp.verif_bit_matrix() == want_m && cp.num_coupons() == 1, "C16.cpc.row_col", "{what}: CPC matrix differs from reference row/col {rc:#x} (num_coupons {})", cp.num_coupons());
+    // HLL (no float entry points: generic items only)
+    if let Feed::U128(x) = &feed {
+        for ty in [HllType::Hll4, HllType::Hll6, HllType::Hll8] {
+            let mut h = HllSketch::new(c.lg_k, ty);
+            h.update(*x);
+            let want = refhash::hll_coupon(&bytes);
+            let got: Vec<u32> = h.verif_state().coupon_slots.iter().copied().filter(|&v| v != 0).collect();
+            ensure!(got == vec![want], "C16.hll.coupon", "{what}: HLL coupon {got:x?}, reference {want:x}");
+            // and the same item twice more changes nothing
+            h.update(*x);
+            ensure!(h.estimate() > 0.99 && h.estimate() < 1.01, "C16.hll.coupon", "{what}: estimate {} after one distinct item", h.estimate());
+        }
+    }
+    Ok(())
+}
+
 pub fn def() -> PropDef {
     PropDef {
         id: "C16",
@@ -474,6 +603,16 @@ pub fn def() -> PropDef {
                 limit_factor: 1,
                 strategy: derived_case,
                 check: derived,
+            }),
+            Box::new(PropSub {
+                name: "boundary_digests_and_floats",
+                rule: "items built to hit the ends of the derivations through the PUBLIC update methods: (a) u128 items computed as MurmurHash3 pre-images of chosen digests (h1, h2) - every leading-zero count 0..=64 of h2 (register value 1..63, CPC column 0..63, h2 = 0), h1 = 0 / 1 / 2^63 / MAX (theta hash 0 is ignored, slot and row bits all 0 or all 1); (b) update_f64 / update_f32 of theta and CPC with +-0.0, every NaN class, infinities, subnormals and random bits, against Java's canonical form (one zero, one NaN). State compared with the reference derivation; every case non-trivial",
+                cases_quick: 100_000,
+                cases_thorough: 1_500_000,
+                max_shrink_iters: 2000,
+                limit_factor: 1,
+                strategy: boundary_case,
+                check: boundary,
             }),
         ],
         post: None,
